@@ -81,9 +81,21 @@ def outcome(schema, text):
     return ("internal", type(got[1]).__name__, got[2])
 
 
+_LINK = {"n": 0}
+
+
 def load_composed(c):
     ZConfig = loadcheck.zc()
     main = c.materialise()
+    _LINK["n"] += 1
+    if _LINK["n"] % 4 == 0:
+        # the schema is stored elsewhere; the name it is loaded by is a symbolic link next to its
+        # bases (relative references are relative to the name it was loaded by)
+        import os
+        store = os.path.join(c.root, "zcv-store")
+        os.makedirs(store, exist_ok=True)
+        os.rename(main, os.path.join(store, "stored-schema.xml"))
+        os.symlink(os.path.join(store, "stored-schema.xml"), main)
     return ZConfig.loadSchema(main)
 
 
